@@ -41,6 +41,9 @@ func (r *scriptReader) Read(p []byte) (int, error) {
 	d := time.Duration(k+1) * time.Millisecond
 	mcrt.Advance(d)
 	size := r.sizes[k%len(r.sizes)]
+	if size == 0 && k >= 3 && len(r.sizes) == 1 {
+		size = 1 // an all-zero script stalls three times, then makes progress (io.Copy never gives up on (0, nil))
+	}
 	if size > len(p) {
 		size = len(p)
 	}
